@@ -5,6 +5,8 @@ import NaijaVerif.Model.CfgCount
 import NaijaVerif.Gen.Caps
 import NaijaVerif.Driver.AstIO
 import NaijaVerif.Driver.Util
+import NaijaVerif.Driver.Run
+import NaijaVerif.Model.AnalysisPrims
 /-!
 Family `plan` (property C03).  Request:
 ```
@@ -94,9 +96,68 @@ def warnsStr (ws : List Warn) : String :=
 def malformed (why : String) : String :=
   s!"limit=none warns=- unreach=- unusedAsg=- unusedVar=- unusedFn=- removable=- fns=- cls=- end=malformed:{why}"
 
+/-! ### `arun` -/
+
+def isInfix (pat : List Nat) : List Nat → Bool
+  | [] => pat.isEmpty
+  | x :: xs => pat.isPrefixOf (x :: xs) || isInfix pat xs
+
+def arunFuel : Nat := 100000
+
+def dotIds (s : String) : Option (List Nat) :=
+  if s = "-" then some [] else (s.splitOn ".").mapM (·.toNat?)
+
+def arunPlan (s : String) : Option (Option Plan) :=
+  if s = "none" then some none else
+  match s.splitOn ";" with
+  | [a, b] => do pure (some { stmts := ← dotIds a, fns := ← dotIds b })
+  | _ => none
+
+/-- The configuration of the `arun` runs: process execution denied, no input. -/
+def arunCfg : Eval.RunCfg :=
+  { lookup := .dynamic, plan := none, panics := false, policy := { allow := false, caps := RunD.defaultCaps },
+    runProc := RunD.runProcStub, std := RunD.stdOps, input := [] }
+
+/-- The executable instance the closed theorem `c03_concrete` is about. -/
+def arunPrims (facts : Facts) : AEval.Prims (Eval.Value Float) :=
+  C03.evalPrims arunCfg (C03.declScopeOf facts) (C03.stmtScopeOf facts)
+
+def arunEnd {α : Type} : Except AEval.Err α → String
+  | .ok _ => "ok"
+  | .error (.rt k) => s!"rt:{(C03.rtDecode k).name}"
+  | .error .unbound => "rt:UndefinedVariable"
+  | .error .panic => "panic"
+  | .error .fuel => "fuel"
+
+def arunOne (tag : String) (r : AEval.R (Eval.Value Float) (AEval.Flow (Eval.Value Float))) : String :=
+  let e := arunEnd r.1
+  let out := if e = "panic" || e = "fuel" then "*" else RunD.outStr r.2.out.reverse
+  s!"{tag}.out={out} {tag}.end={e}"
+
+def answerArun (hexsrc planTok : String) (rest : List String) : String :=
+  match unhex hexsrc with
+  | none => "arun malformed:src"
+  | some src =>
+    if isInfix (b!"read_line") src then "arun skip" else
+    let astToks := (rest.takeWhile (fun w => !w.startsWith "facts=")).map
+      (fun w => if w.startsWith "ast=" then (w.drop 4).toString else w)
+    let factsTok := rest.find? (·.startsWith "facts=")
+    match AstIO.pBlock.run astToks, factsTok.bind (fun t => readFacts (t.drop 6).toString),
+        arunPlan ((planTok.drop 5).toString) with
+    | some (root, []), some facts, some plan =>
+        let P := arunPrims facts
+        let r0 := AEval.run P none arunFuel root
+        let r1 := AEval.run P plan arunFuel root
+        s!"arun {planTok} {arunOne "plain" r0} {arunOne "pruned" r1}"
+    | none, _, _ => "arun malformed:ast"
+    | some (_, _ :: _), _, _ => "arun malformed:ast-trailing"
+    | some _, none, _ => "arun malformed:facts"
+    | some _, some _, none => "arun malformed:plan"
+
 def answer (line : String) : String :=
   let ws := words line
   match ws with
+  | "arun" :: hexsrc :: planTok :: rest => answerArun hexsrc planTok rest
   | "plan" :: _ :: rest =>
       let astToks := (rest.takeWhile (fun w => !w.startsWith "facts=")).map
         (fun w => if w.startsWith "ast=" then (w.drop 4).toString else w)
